@@ -75,7 +75,7 @@ func main() {
 }
 
 func c15(c *Ctx) {
-	c.Rule = "upload sessions: 1..4 files (sizes 1 byte .. 3 chunk sizes, chunk sizes 1/7/64/4096, names and alarm ids over arbitrary bytes incl. 30 31 63 64), 0x1210 / optional 0x1211 / chunks / 0x1212 (+ resend and a second 0x1212 when tiles were withheld), all chunk orders for <= 4 chunks (exhaustive), duplicates before and after completion, five dialects (HLJ length-prefixed chunk header), both header versions; each stream fed unit by unit, coalesced into one read, with every 1-cut (short streams), byte by byte (short streams) and random k-cuts; plus malformed streams (garbage, truncated frames, unknown ids, chunks of unknown files, bad 0x1210 bodies) for the correspondence. A case is non-trivial when the stream holds at least one chunk and one control frame; distinct = distinct request lines"
+	c.Rule = "upload sessions: 1..4 files (sizes 1 byte .. 3 chunk sizes, chunk sizes 1/7/64/4096, names and alarm ids over arbitrary bytes incl. 30 31 63 64), 0x1210 / optional 0x1211 / chunks / 0x1212 (+ resend and a second 0x1212 when tiles were withheld), all chunk orders for <= 4 chunks (exhaustive), duplicates before and after completion, five dialects (HLJ length-prefixed chunk header), both header versions, non-uniform splits (random cut points) with a second 0x1210 in mid-session, file names of every length up to the header limits; a zero-length chunk before a 0x1212 (known finding), 126..255 single-byte gaps (0x9212 bodies over 1023 bytes: correspondence of the bytes only); each stream fed unit by unit, coalesced into one read, with every 1-cut (short streams), byte by byte (short streams) and random k-cuts; plus malformed streams (garbage, truncated frames, unknown ids, chunks of unknown files, bad 0x1210 bodies) for the correspondence. A case is non-trivial when the stream holds at least one chunk and one control frame; distinct = distinct request lines"
 	rng := c.Rng
 
 	randName := func(d int, i int) []byte {
@@ -555,6 +555,31 @@ func c15(c *Ctx) {
 						What:  "after a zero-length chunk at offset 5 of an otherwise empty 10-byte file the 0x9212 report is not the maximal missing range",
 						Input: req, Observed: AttSegsStr(list), Required: AttSegsStr([]AttSeg{{O: 0, L: 10}})})
 				}
+			}
+		}
+	}
+
+	// (2d) 0x1212 answers whose list needs a body over 1023 bytes (127 or more ranges): Header.Encode writes the length
+	// unmasked into the property word, the frame is not decodable (the coordinator's C16 finding); here only the
+	// correspondence: the model's encode must produce the same bytes as the code, whatever they are
+	for _, gaps := range []int{126, 127, 128, 200, 255} {
+		size := 2*gaps + 1
+		s := newSession(1, []int{size}, []int{1})
+		segs := [][]byte{ctrl(s, 0x1210, 0).bytes}
+		for o := 0; o < size; o += 2 { // every even byte arrives: the odd ones are the gaps
+			segs = append(segs, chunk(s, 0, o).bytes)
+		}
+		segs = append(segs, ctrl(s, 0x1212, 0).bytes)
+		var one []byte
+		for _, g := range segs {
+			one = append(one, g...)
+		}
+		for _, sg := range [][][]byte{segs, {one}} {
+			res := AttRun(s.d, sg, nil)
+			c.Case(AttRequest(s.d, sg), AttCanon(res), true)
+			c.Count("many-gaps")
+			if res.Panic != "" {
+				c.Violate(Violation{Signature: "C15/panic", What: "an upload with many gaps made connection.run panic", Input: AttRequest(s.d, sg), Observed: res.Panic, Required: "no panic"})
 			}
 		}
 	}
